@@ -141,7 +141,7 @@ func gen(t *rapid.T) Case {
 		nfail = rapid.IntRange(1, 7).Draw(t, "nfail")
 	}
 	for i := 0; i < n+nfail; i++ {
-		it := Item{What: rapid.SampledFrom([]string{"metric", "batch", "batch", "message", "message"}).Draw(t, "what")}
+		it := Item{What: rapid.SampledFrom([]string{"metric", "batch", "batch", "message", "message", "client", "client"}).Draw(t, "what")}
 		if i < nfail {
 			it.FailAt = rapid.IntRange(1, 80).Draw(t, "failAt")
 		}
@@ -289,9 +289,16 @@ func run(c Case) (pbt.Outcome, error) {
 		tr, _ := customtransport.NewTBufferedReadTransport(bytes.NewBuffer(b))
 		return fac.GetProtocol(tr)
 	}
+	// the generated client, as the reporter uses it: ONE client (and its output protocol) for every
+	// message of the case, writing to a transport of its own
+	cmem := thrift.NewTMemoryBuffer()
+	cli := m3thrift.NewM3ClientFactory(cmem, fac)
 	failed := 0
 	for ii, it := range c.Items {
 		mb := toBatch(it.Batch)
+		if it.What == "client" && it.FailAt > 0 {
+			it.What = "message"
+		}
 		if it.FailAt > 0 {
 			// a write the transport refuses part-way: abandoned, nothing judged, state stays behind
 			lim.limit, lim.written = it.FailAt, 0
@@ -360,6 +367,47 @@ func run(c Case) (pbt.Outcome, error) {
 				errs.Addf("item %d (batch): decode error %v", ii, err)
 			} else if s := eqBatch(mb, d); s != "" {
 				errs.Addf("item %d (batch): round trip: %s", ii, s)
+			}
+		case "client":
+			cmem.Reset()
+			if err := cli.EmitMetricBatchV2(mb); err != nil {
+				errs.Addf("item %d (client): EmitMetricBatchV2: %v", ii, err)
+				continue
+			}
+			enc := append([]byte(nil), cmem.Bytes()...)
+			seq := cli.SeqId
+			calc.ResetCount()
+			werr := func(p thrift.TProtocol) error {
+				if err := p.WriteMessageBegin("emitMetricBatchV2", thrift.ONEWAY, seq); err != nil {
+					return err
+				}
+				args := m3thrift.M3EmitMetricBatchV2Args{Batch: mb}
+				if err := args.Write(p); err != nil {
+					return err
+				}
+				return p.WriteMessageEnd()
+			}(calcProto)
+			if werr != nil {
+				errs.Addf("item %d (client): calc write: %v", ii, werr)
+				continue
+			}
+			if n := calc.GetCount(); int(n) != len(enc) {
+				errs.Addf("item %d (client): the calculator says %d bytes for the message (begin, arguments, end), the client emitted %d (message number %d through this client)", ii, n, len(enc), seq)
+			}
+			dp := decProtoFor(enc)
+			name, typ, gotSeq, err := dp.ReadMessageBegin()
+			if err != nil || name != "emitMetricBatchV2" || typ != thrift.ONEWAY || gotSeq != seq {
+				errs.Addf("item %d (client): header decoded as (%q,%v,%d,%v), want (emitMetricBatchV2,ONEWAY,%d)", ii, name, typ, gotSeq, err, seq)
+				continue
+			}
+			var args m3thrift.M3EmitMetricBatchV2Args
+			if err := args.Read(dp); err != nil {
+				errs.Addf("item %d (client): decode error %v", ii, err)
+			} else if s := eqBatch(mb, args.Batch); s != "" {
+				errs.Addf("item %d (client): round trip: %s", ii, s)
+			}
+			if err := dp.ReadMessageEnd(); err != nil {
+				errs.Addf("item %d (client): ReadMessageEnd %v", ii, err)
 			}
 		case "message":
 			write := func(p thrift.TProtocol) error {
@@ -480,7 +528,7 @@ func run(c Case) (pbt.Outcome, error) {
 func TestC16(t *testing.T) {
 	pbt.Main(t, pbt.Prop[Case]{
 		ID: "C16", Name: "thrift",
-		Rule: "rapid-generated sequences of 1..4 structures (single Metric, MetricBatch, full one-way emitMetricBatchV2 message) written through ONE reused calculating protocol and ONE reused encoding protocol (Compact or Binary): batches of 0..6 (occasionally 14/15/16/127/128/129/500) metrics, 0..16 tags, strings of arbitrary bytes up to 1 KiB incl. varint-length boundaries, int64/float64 extremes, optional fields present/absent/empty, sequence ids at varint boundaries. Oracles: decode(encode(x)) == x (nil == empty list), calc(x) == len(encode(x)), calc(placeholder with maximal own-kind value and timestamp) >= len(encode(real values)). Non-trivial: a batch with >=2 metrics of different tag counts, or a value needing the maximal varint. Distinct: FNV-64 of the case JSON.",
+		Rule: "rapid-generated sequences of 1..4 structures (single Metric, MetricBatch, full one-way emitMetricBatchV2 message - written by hand or sent through ONE generated M3Client, as the reporter does) written through ONE reused calculating protocol and ONE reused encoding protocol (Compact or Binary): batches of 0..6 (occasionally 14/15/16/127/128/129/500) metrics, 0..16 tags, strings of arbitrary bytes up to 1 KiB incl. varint-length boundaries, int64/float64 extremes, optional fields present/absent/empty, sequence ids at varint boundaries. Oracles: decode(encode(x)) == x (nil == empty list), calc(x) == len(encode(x)), calc(placeholder with maximal own-kind value and timestamp) >= len(encode(real values)). Non-trivial: a batch with >=2 metrics of different tag counts, or a value needing the maximal varint. Distinct: FNV-64 of the case JSON.",
 		Gen:  gen, Run: run, HangAfter: 20 * time.Second,
 	})
 }
